@@ -32,7 +32,10 @@ ASSUMPTIONS = [
     "containers built over the same loader share its cache (to_population / ChainTrees chain the members' loaders)",
 ]
 
-POOL = ["a.swc", "b.swc", "c.swc", "d.swc", "sub/a.swc", "sub/e.swc", "sub/deep/f.swc", "sub2/g.swc"]
+POOL = ["a.swc", "b.swc", "c.swc", "d.swc", "sub/a.swc", "sub/e.swc", "sub/deep/f.swc", "sub2/g.swc",
+        # names that start with a dot (a hidden file beside its visible namesake, a hidden folder) or with other characters a
+        # path clean-up might treat specially
+        ".a.swc", ".hidden/h.swc", "..b.swc", "sub/.e.swc"]
 NOISE = ["notes.txt", "sub/readme.md", "h.eswc", "sub2/x.swc.bak"]
 EMPTY = ["empty1", "sub/empty2"]
 # files whose extension differs from '.swc' only in case: whether they belong to a population is not fixed by the statement
@@ -57,7 +60,7 @@ def _chain_len_slow(tree, slow_n=-1):
 
 def init_strategy(tier):
     root = st.fixed_dictionaries({
-        "files": st.lists(st.sampled_from(POOL), unique=True, max_size=8),
+        "files": st.lists(st.sampled_from(POOL), unique=True, max_size=9),
         "noise": st.lists(st.sampled_from(NOISE), unique=True, max_size=2),
         "empty": st.lists(st.sampled_from(EMPTY), unique=True, max_size=2),
         "casevar": st.one_of(st.just([]), st.just([]), st.lists(st.sampled_from(CASEVAR), unique=True, max_size=2)),
@@ -498,6 +501,8 @@ def finish(s, ctx):
         ctx.cls("map-with-progress-bar-and-uneven-work")
     if any(sp.get("casevar") for sp in s.layout):
         ctx.cls("layout-with-case-variant-extensions")
+    if any(os.path.basename(f).startswith(".") or f.startswith(".") for sp in s.layout for f in sp["files"]):
+        ctx.cls("layout-with-names-starting-with-a-dot")
     if s.flags.get("iterated_non_prefix_slice"):
         ctx.cls("iterated-a-non-prefix-slice")
     ctx.nontrivial(sum(1 for n in nfiles if n >= 3) >= 2 and nested and empty and s.flags["repeat"]
@@ -592,5 +597,5 @@ SUBCHECKS = [
                                       "map-over-a-population-made-of-a-slice": 2, "map-with-progress-bar-and-uneven-work": 3,
                                       "layout-with-case-variant-extensions": 60, "whole-container-reversed-by-a-slice": 40,
                                       "populations-over-roots-with-case-variant-extensions": 10,
-                                      "root-written-with-a-trailing-separator": 200, "map-after-fetched-trees-were-inspected": 3}),
+                                      "root-written-with-a-trailing-separator": 200, "layout-with-names-starting-with-a-dot": 300, "map-after-fetched-trees-were-inspected": 3}),
 ]
